@@ -8,7 +8,7 @@ Oracle on the implementation: recompute line/column/quoted line/caret from the r
 """
 import re
 
-from lib.common import Run, hx, unhx
+from lib.common import Run, hx, unhx, go_child
 
 CJK = "力量敏捷体质智力意志外貌教育幸运"
 ATOMS = ["1", "23", "x", "力量", "d20", "2d6", "'ab'", "\"q\"", "`t{1}`", "[1,2]", "{'a':1}", "f(1)", "a.b", "1.5", "(3)", "null"]
@@ -201,6 +201,31 @@ def main(tier):
         run.diff_stream("errfmt", phase2, go_timeout=300)
         run.sample({"stream": "errfmt", "input": inputs[0].decode(), "case": phase2[0] if phase2 else ""})
         run.sample({"stream": "errfmt", "input": inputs[len(inputs) // 2].decode("utf-8", "replace")})
+        # ---- the language is the one configured NOW: a VM that already reported errors in one language, then has its configuration edited
+        #      (or copied to another VM and edited there), reports in the new one — exactly the text a fresh VM gives
+        BAD = ["(1 + ", "1 +* 2", "", "[1,", "'abc", "{'a': 1", "x = ", "if 1 {", "`a{1", "1 ? 2 :", "#", "(1.\n)"]
+        ll, lm = [], []
+        for l1 in (0, 1, 2):
+            for l2 in (0, 1, 2):
+                if l1 == l2:
+                    continue
+                for s2 in BAD:
+                    s1 = r.choice(BAD + ["1+1", "2d6"])
+                    ll.append(f"errlangseq {l1} {hx(s1)} {l2} {hx(s2)}")
+                    lm.append((l1, s1, l2, s2))
+        lo = go_child().run(ll)
+        for (l1, s1, l2, s2), o in zip(lm, lo):
+            run.evaluations += 1
+            run.count("language-after-edit.cases")
+            parts = o.split(" || ")
+            if len(parts) != 3:
+                run.violation("errfmt:language-sequence-crashed", {"first_language": l1, "first_input": s1, "language": l2, "input": s2, "implementation": o[:300]})
+            elif parts[0] != parts[2] or parts[1] != parts[2]:
+                dec = [unhx(x).decode("utf-8", "replace") if x != "-" else None for x in parts]
+                run.violation("errfmt:message-not-in-the-language-configured-now", {"first_language": l1, "first_input": s1, "language": l2, "input": s2,
+                                                                                     "same_vm_after_edit": dec[0], "other_vm_with_copied_config": dec[1], "fresh_vm": dec[2]})
+            else:
+                run.nontriv(("langseq", l1, l2, s2))
     return run.finish(
         trusted=["Lean 4.33 kernel", "axioms: propext, Classical.choice, Quot.sound", "Go harness + Lean driver",
                  "which offset the packrat engine reports (maxFailPos) is taken from the implementation; the theorems cover every "
